@@ -7,7 +7,9 @@ from vlib import Case, hx, unhx
 
 PROP = "C07"
 PROOF_FILES = ["Properties/C07.v", "Properties/ModelTie.v"]
-RULE = ("well-formed program association sections with pointer_field 0 built by the Coq serialiser from logical entry lists: "
+RULE = ("well-formed program association sections behind ANY pointer_field (0 in half of the cases; every value 0..255 in front of small "
+        "sections on the bare payload carrier and every value that fits - up to 171 - on the packet and stream carriers; the skipped bytes "
+        "are 0xFF stuffing, zeros, random bytes or bytes that look like table ids / sync bytes) built by the Coq serialiser from logical entry lists: "
         "every entry count 0..42 (several shapes each: distinct programs, duplicate program numbers, network entry "
         "program_number 0 first/middle/last/only, PIDs 0/1/0x1FFF and random with all reserved-bit patterns), entry counts "
         "43..253 for concatenated payloads; each on the carriers payload bytes (bare, 0xFF-stuffed, random trailing bytes), "
@@ -17,10 +19,10 @@ RULE = ("well-formed program association sections with pointer_field 0 built by 
         "absent, and for the nil PAT.  Every deciding case is judged by the Spec-side oracle (spec.pat of modelexec: expected entry count, "
         "sorted last-wins program map, single-program PID, PMT classification computed from the logical entry list by Spec/PatSpec.v) "
         "in addition to model equality.  A case is non-trivial when it is a distinct request inside the property's hypotheses; "
-        "malformed inputs (pointer_field != 0, truncation, wrong section_length, packets without payload, short payloads, "
+        "malformed inputs (a pointer_field that does not point at the section, truncation, wrong section_length, packets without payload, short payloads, "
         "188-byte payload strings, psi helpers on arbitrary bytes) are fidelity cases for the C05 totality lemmas")
 EXHAUSTIVE = False
-ASSUMPTIONS = ["pointer_field = 0 (the PAT accessors hard-code offset 8; what happens for pointer_field > 0 is characterised by C07_pointer_nonzero_* and refutes the property as its text reads: notes/findings/C07.md P1)",
+ASSUMPTIONS = ["the model follows /repo commit 3223166 (finding P1: before it the accessors ignored a non-zero pointer_field; fixed entry in known_findings.json)",
                "io.ReadFull behaves as documented (the reader script is the list of its results)",
                "payload byte strings are not exactly 188 bytes long (NewPAT treats a 188-byte slice as a packet)"]
 
@@ -76,16 +78,49 @@ def entries_shapes(rng, n):
     return shapes
 
 
-def mkrec(rng, entries):
-    """the logical section: flags nibble, the five bytes after section_length, the entries, the CRC bytes"""
-    return dict(flags=rng.choice([0xB, 0xB, 0x8, 0xF, 0x0, rng.randrange(16)]),
+def pfk(rec):
+    """kind suffix: cases with a non-zero pointer_field are counted separately"""
+    return "-pf" if rec["pf"] else ""
+
+
+def filler_of(rng, k):
+    """the k bytes between the pointer_field and the section: stuffing, or arbitrary bytes (the tail of a previous
+    section), incl. bytes that look like a table_id / sync byte"""
+    c = rng.randrange(4)
+    if c == 0:
+        return b"\xff" * k
+    if c == 1:
+        return rb(rng, k)
+    if c == 2:
+        return bytes(rng.choice([0x00, 0x47, 0xB0, 0xFF, k & 0xFF]) for _ in range(k))
+    return bytes(k)
+
+
+def pick_pf(rng, n):
+    """pointer_field for an n-entry section: 0 in half of the cases, else small / fitting a packet / up to 255"""
+    room = 184 - (13 + 4 * n)
+    c = rng.randrange(8)
+    if c < 4:
+        return 0
+    if c < 6 and room > 0:
+        return rng.choice([1, 2, 3, 8, room, rng.randrange(1, room + 1)]) if room >= 8 else rng.randrange(1, room + 1)
+    return rng.choice([1, 4, 100, 182, 183, 254, 255, rng.randrange(1, 256)])
+
+
+def mkrec(rng, entries, pf=None):
+    """the logical payload: pointer_field and the bytes it skips, then the section: flags nibble, the five bytes after
+    section_length, the entries, the CRC bytes"""
+    k = pick_pf(rng, len(entries)) if pf is None else pf
+    return dict(pf=k, filler=filler_of(rng, k),
+                flags=rng.choice([0xB, 0xB, 0x8, 0xF, 0x0, rng.randrange(16)]),
                 hdr=bytes([rng.randrange(256), rng.randrange(256), 0xC1 | (rng.randrange(32) << 1), 0, 0]),
                 entries=list(entries), crc=rb(rng, 4))
 
 
 def payload_req(rec, rest=b"", entries=None):
     e = rec["entries"] if entries is None else entries
-    return "pat.ser.payload %d %s %s %s %s" % (rec["flags"], hx(rec["hdr"]), wire([list(x) for x in e]), hx(rec["crc"]), hx(rest))
+    return "pat.ser.payload_pf %d %s %d %s %s %s %s" % (rec["pf"], hx(rec["filler"]), rec["flags"], hx(rec["hdr"]),
+                                                     wire([list(x) for x in e]), hx(rec["crc"]), hx(rest))
 
 
 def ser_payload_req(rng, entries, rest=b""):
@@ -124,6 +159,12 @@ def gen(rng, tier):
         e = entries_shapes(rng, n)[rng.randrange(3)]
         recs.append(mkrec(rng, e))
         plan.append((e, payload_req(recs[-1])))
+    # every pointer_field 0..255 in front of small sections (bare payload; the packet carriers take those that fit)
+    for n in (0, 1, 2) if not thorough else (0, 1, 2, 3, 10, 42):
+        for k in range(256):
+            e = entries_shapes(rng, n)[rng.randrange(2)]
+            recs.append(mkrec(rng, e, pf=k))
+            plan.append((e, payload_req(recs[-1])))
     bare = [unhx(r) for r in vlib.run_model([r for _, r in plan])]
     # ---- stage 2: carriers
     pkt_reqs = []   # (kind, entries, payload, af) -> 188-byte packets through the Spec packet serialiser
@@ -139,7 +180,7 @@ def gen(rng, tier):
             if len(v) == 188:
                 out.append(Case("pat.new " + hx(v), kind="fidelity-payload-188", decides=False, nontrivial=False, theorem=th))
             else:
-                out.append(Case("pat.new " + hx(v), kind="payload", theorem=th))
+                out.append(Case("pat.new " + hx(v), kind="payload" + pfk(rec), theorem=th))
                 _SPEC_REQ.append((out[-1].line, spec_view_req(e)))
                 META[out[-1].line] = dict(carrier="payload", rec=rec, rest=v[len(pay):])
         if len(pay) <= 184:
@@ -147,7 +188,7 @@ def gen(rng, tier):
             pkt_reqs.append(("packet", e, stuffed, None, rec))
             room = 183 - len(pay)        # adaptation field content bytes that still leave room for the section
             afl = sorted({0, 1, room, rng.randrange(0, room + 1), rng.randrange(0, room + 1)} if room >= 1 else {0})
-            for L in (range(0, room + 1) if (thorough and n % 7 == 0) else afl):
+            for L in ((range(0, room + 1) if (thorough and n % 7 == 0) else afl) if room >= 0 else []):
                 af = (bytes([rng.choice([0x00, 0x40, 0x10, 0xFF])]) + b"\xff" * (L - 1)) if L else b""
                 body = pay + b"\xff" * (183 - L - len(pay))
                 pkt_reqs.append(("packet-af", e, body, af, rec))
@@ -156,14 +197,14 @@ def gen(rng, tier):
     pat_packets = []
     for (k, e, body, af, rec), pkt in zip(pkt_reqs, packets):
         assert len(pkt) == 188
-        out.append(Case("pat.new " + hx(pkt), kind=k, theorem="C07_new_pat_packet"))
+        out.append(Case("pat.new " + hx(pkt), kind=k + pfk(rec), theorem="C07_packet_carrier"))
         _SPEC_REQ.append((out[-1].line, spec_view_req(e)))
         META[out[-1].line] = dict(carrier="packet", rec=rec, pkt=pkt, af=af)
         if pkt[1] & 0x1F == 0 and pkt[2] == 0:
             pat_packets.append((e, pkt, rec))
     # ---- stream carrier
     for i, (e, pkt, rec) in enumerate(pat_packets):
-        if not thorough and i % 3:
+        if not thorough and i % 3 and not (rec["pf"] and i % 3 == 1):
             continue
         lead = [other_packet(rng) for _ in range(rng.choice([0, 1, 2, 3, 5]))]
         trail = [other_packet(rng) for _ in range(rng.randrange(3))]
@@ -171,7 +212,7 @@ def gen(rng, tier):
             trail.append(pat_packets[rng.randrange(len(pat_packets))][1])   # a later, different PAT must not matter
         frag = rng.choice([0, 1, 7, 187, 188, 189, 376, 4096])
         tailmode = rng.randrange(3)
-        out.append(Case("pat.read %s %d %d" % (wire(lead + [pkt] + trail), tailmode, frag), kind="stream",
+        out.append(Case("pat.read %s %d %d" % (wire(lead + [pkt] + trail), tailmode, frag), kind="stream" + pfk(rec),
                         theorem="C07_read_pat"))
         _SPEC_REQ.append((out[-1].line, spec_view_req(e)))
         META[out[-1].line] = dict(carrier="stream", rec=rec, pkt=pkt, lead=lead, trail=trail, tail=tailmode, frag=frag)
@@ -184,7 +225,7 @@ def gen(rng, tier):
                         decides=False, nontrivial=False, theorem="read_pat_reader_error"))
     # ---- IsPMT
     for i, ((e, _), pay, rec) in enumerate(zip(plan, bare, recs)):
-        if len(pay) == 188 or (not thorough and i % 2):
+        if len(pay) == 188 or (not thorough and i % 2 and not (rec["pf"] and i % 4 == 1)):
             continue
         progs = {}
         for pn, pid, _ in e:
@@ -206,7 +247,7 @@ def gen(rng, tier):
             p = bytearray(other_packet(rng))
             p[1] = (p[1] & 0xE0) | (pid >> 8)
             p[2] = pid & 0xFF
-            out.append(Case("pat.ispmt %s [ %s ]" % (hx(p), hx(pay)), kind=kind, theorem="C07_is_pmt_iff"))
+            out.append(Case("pat.ispmt %s [ %s ]" % (hx(p), hx(pay)), kind=kind + pfk(rec), theorem="C07_is_pmt_iff"))
             _SPEC_REQ.append((out[-1].line, spec_ispmt_req(e, pid)))
             META[out[-1].line] = dict(carrier="ispmt", rec=rec, pkt=bytes(p), pid=pid)
     for _ in range(10):
@@ -246,14 +287,6 @@ def gen(rng, tier):
         b[0] = rng.choice([0, 0, 1, 2, len(b) - 3, len(b) - 2, len(b) - 1, len(b), 254, 255]) & 0xFF
         fid("pat.psi " + hx(b), "psi")
         fid("pat.new " + hx(b), "random")
-    # pointer_field = k > 0 in front of a well-formed section (C07_pointer_nonzero_*: the model is PROVED to decode the
-    # wrong bytes there and the code does the same; outside the hypothesis pointer_field = 0, hence fidelity)
-    for k in range(120 if thorough else 30):
-        pay = sample[rng.randrange(len(sample))]
-        kk = rng.choice([1, 1, 2, 3, 4, 8, rng.randrange(1, 40)])
-        q = bytes([kk]) + rng.choice([b"\xff" * kk, rb(rng, kk)]) + pay[1:]
-        if len(q) != 188:
-            fid("pat.new " + hx(q), "pointer-nonzero-wf-section")
     # the Spec-side oracle: one batch through modelexec
     for (line, _), r in zip(_SPEC_REQ, vlib.run_model([q for _, q in _SPEC_REQ])):
         EXPECT[line] = r
@@ -314,6 +347,11 @@ def shrink(c):
         cands.append((payload_req(rec), spec_view_req(es), (lambda b: "pat.new " + hx(b) if len(b) != 188 else None),
                       dict(carrier="payload", rec=rec, rest=b"")))
     elif m["carrier"] == "payload":
+        if rec["pf"]:
+            for r0 in (dict(rec, pf=0, filler=b""), dict(rec, filler=b"\xff" * rec["pf"]), dict(rec, pf=1, filler=b"\xff")):
+                if (r0["pf"], r0["filler"]) != (rec["pf"], rec["filler"]):
+                    cands.append((payload_req(r0, m["rest"]), spec_view_req(es), (lambda b: "pat.new " + hx(b) if len(b) != 188 else None),
+                                  dict(carrier="payload", rec=r0, rest=m["rest"])))
         if m["rest"]:
             cands.append((payload_req(rec), spec_view_req(es), (lambda b: "pat.new " + hx(b) if len(b) != 188 else None),
                           dict(carrier="payload", rec=rec, rest=b"")))
@@ -337,11 +375,14 @@ def payload_of(pkt):
 
 
 def wf_payload(b):
-    """pointer_field 0, table_id 0, a complete section with section_length = 9 + 4n, not 188 bytes long"""
-    if len(b) < 13 or len(b) == 188 or b[0] != 0 or b[1] != 0:
+    """pointer_field k, then k bytes, table_id 0, a complete section with section_length = 9 + 4n; not 188 bytes long"""
+    if len(b) < 13 or len(b) == 188:
         return False
-    sl = ((b[2] & 3) << 8) | b[3]
-    return sl >= 9 and (sl - 9) % 4 == 0 and 4 + sl <= len(b) and (b[2] & 0x0C) == 0
+    k = b[0]
+    if len(b) < 13 + k or b[1 + k] != 0:
+        return False
+    sl = ((b[2 + k] & 3) << 8) | b[3 + k]
+    return sl >= 9 and (sl - 9) % 4 == 0 and 4 + k + sl <= len(b) and (b[2 + k] & 0x0C) == 0
 
 
 def wf_carrier(b):
@@ -392,7 +433,7 @@ def search(c, rng):
 
 
 LEVEL_TEXT = ("Proof: Coq theorems in Properties/C07.v state for ALL well-formed program association sections (any entry list "
-              "with section_length < 1024, any reserved bits, any trailing bytes; pointer_field 0) that NumPrograms is the number "
+              "with section_length < 1024, any reserved bits, any trailing bytes; ANY pointer_field with any skipped bytes) that NumPrograms is the number "
               "of entries, that ProgramMap is exactly the last-wins map of the entries with non-zero program_number to their "
               "13-bit PID, that SPTSpmtPID succeeds exactly on a single program entry, that the 188-byte path of NewPAT equals the "
               "payload path for every packet (any adaptation field), that ReadPAT skips any prefix of other-PID packets and reports "
